@@ -360,6 +360,15 @@ macro_rules! brkc_backend {
             let cols = rank + 1;
             let mut top = Source::new(seed32(sxa));
             let (mut nc, mut nm, mut nd, mut sw) = (0, 0, 0, true);
+            // data for the Lean model (pdriver enc cmp_brk)
+            let wstr = |w: &[u64]| -> String { w.iter().map(|x| x.to_string()).collect::<Vec<_>>().join(",") };
+            let wof = |seed: [u8; 32], count: usize| -> Vec<u64> {
+                let mut s = Source::new(seed);
+                (0..count).map(|_| s.next_i64() as u64).collect()
+            };
+            let (mut m_gseeds, mut m_sub, mut m_seeds, mut m_child, mut m_e, mut m_obj): (Vec<String>, Vec<String>, Vec<String>, Vec<String>, Vec<String>, Vec<String>) =
+                (vec![], vec![], vec![], vec![], vec![], vec![]);
+            let mut xe_m = Source::new(seed32(sxe));
             for _ in 0..nl {
                 let mut c = GGSWCompressed::alloc_from_infos(&layout);
                 c.read_from(&mut r).unwrap();
@@ -378,6 +387,8 @@ macro_rules! brkc_backend {
                     w[8 * q..8 * q + 8].copy_from_slice(&(top.next_i64() as u64).to_le_bytes());
                 }
                 let mut inner = Source::new(w);
+                m_gseeds.push(wstr(&(0..4).map(|q| u64::from_le_bytes(w[8 * q..8 * q + 8].try_into().unwrap())).collect::<Vec<_>>()));
+                m_sub.push(wstr(&wof(w, 4 * dnum * cols)));
                 for row in 0..dnum {
                     for col in 0..cols {
                         let mut sd = [0u8; 32];
@@ -402,10 +413,30 @@ macro_rules! brkc_backend {
                         let e1 = errors_of(&cell_of(&cd, usize::MAX), &sk_cols, b);
                         let e2 = errors_of(&cell_of(&cs, usize::MAX), &sk_cols, b);
                         nd += (e1 == e2) as i32;
+                        m_seeds.push(wstr(&(0..4).map(|q| u64::from_le_bytes(stored[8 * q..8 * q + 8].try_into().unwrap())).collect::<Vec<_>>()));
+                        m_child.push(wstr(&wof(stored, rank * size * n)));
+                        let mut ev = poulpy_hal::layouts::VecZnx::alloc(n, 1, size);
+                        poulpy_hal::api::VecZnxAddNormal::vec_znx_add_normal(&module, b, &mut ev, 0, noise, &mut xe_m);
+                        m_e.push(show_vec(&ev));
+                        m_obj.push(show_vec(cd.data()));
                     }
                 }
             }
-            format!("ok cells={nc} masks={nm} dec={nd} cellenc=-1 ser={} seedwords={}", ser_ok as i32, sw as i32)
+            let sklwe: Vec<String> = sk_lwe.data().at(0, 0).iter().map(|x| x.to_string()).collect();
+            format!(
+                "ok cells={nc} masks={nm} dec={nd} cellenc=-1 ser={} seedwords={} dnum={dnum} size={size} sk={} sklwe={} top={} gseeds={} sub={} seeds={} child={} e={} obj={}",
+                ser_ok as i32,
+                sw as i32,
+                show_scalar(&sk_vis),
+                sklwe.join(","),
+                wstr(&wof(seed32(sxa), 4 * nl)),
+                m_gseeds.join(";"),
+                m_sub.join(";"),
+                m_seeds.join(";"),
+                m_child.join(";"),
+                m_e.join(";"),
+                m_obj.join("/")
+            )
         }
     };
 }
